@@ -17,6 +17,7 @@ struct Tally {
     events: u64,
     emoticons_phonetic: u64,
     emoticons_fixed: u64,
+    emoticons_fixed_with_erased_key: u64,
     names_phonetic: u64,
     names_fixed: u64,
     names_fixed_untypeable: u64,
@@ -28,6 +29,7 @@ fn flush(t: &Tally, out: &mut Out) {
     out.count("evaluations", t.events);
     out.count("emoticons_judged_phonetic", t.emoticons_phonetic);
     out.count("emoticons_judged_fixed", t.emoticons_fixed);
+    out.count("emoticons_judged_fixed_with_a_key_erased_on_the_way", t.emoticons_fixed_with_erased_key);
     out.count("english_names_judged", t.names_phonetic);
     out.count("bengali_names_judged", t.names_fixed);
     out.count("bengali_names_untypeable_not_judged", t.names_fixed_untypeable);
@@ -275,13 +277,20 @@ fn fixed_name(o: &PhonOracle, rev: &std::collections::HashMap<char, FKey>, plain
     }
 }
 
-fn fixed_emoticon(o: &PhonOracle, sess: &Sess, e: &str, out: &mut Out, t: &mut Tally) {
+/// `junk`: a key pressed before the character at this position and erased again by one backspace (None: straight typing).
+fn fixed_emoticon(o: &PhonOracle, lo: &LayoutOracle, sess: &Sess, e: &str, junk: Option<(usize, char)>, out: &mut Out, t: &mut Tally) {
     let emoji = o.emoticons[e];
-    let case = || json!({"method": "fixed", "kind": "emoticon", "cfg": sess.spec.to_json(), "text": e});
+    let case = || json!({"method": "fixed", "kind": "emoticon", "cfg": sess.spec.to_json(), "text": e, "key_pressed_and_erased": junk.map(|(p, c)| json!({"before_position": p, "key": c.to_string()}))});
     t.events += e.len() as u64;
     let r = (|| -> Result<(Vec<String>, String), Panic> {
         let mut last = None;
-        for c in e.chars() {
+        for (i, c) in e.chars().enumerate() {
+            if let Some((p, j)) = junk {
+                if p == i {
+                    sess.key(kc(j), 0, 0)?;
+                    last = Some(sess.bs(false)?);
+                }
+            }
             last = Some(sess.key(kc(c), 0, 0)?);
         }
         let st = sess.state();
@@ -296,13 +305,19 @@ fn fixed_emoticon(o: &PhonOracle, sess: &Sess, e: &str, out: &mut Out, t: &mut T
         Ok((list, typed)) => {
             // in fixed mode the emoticon is looked up by the raw keys that produced text; keys without an assignment
             // contribute nothing, so the emoticon is only typeable when every key of it is assigned
-            if typed != e {
+            // (decided from the layout file, not from the engine's own record of the keys)
+            let _ = typed;
+            let assigned = |c: char| lo.value(kc(c), 0, sess.spec.has(O_NUMPAD)).map_or(false, |v| !v.is_empty());
+            if !e.chars().all(assigned) || junk.map_or(false, |(_, j)| lo.value(kc(j), 0, false).map_or(true, |v| v.chars().count() != 1)) {
                 return;
             }
             t.emoticons_fixed += 1;
+            if junk.is_some() {
+                t.emoticons_fixed_with_erased_key += 1;
+            }
             out.distinct(fnv_str(&["fe", e]));
             if !list.iter().any(|x| x == emoji) {
-                out.violation("emoticon-offers-emoji", format!("c18:emoticon-emoji-missing:fixed:{e}"), case(), format!("{emoji:?} among the candidates of emoticon {e:?}"), format!("{list:?}"));
+                out.violation("emoticon-offers-emoji", format!("c18:emoticon-emoji-missing:fixed:{e}{}", if junk.is_some() { ":after-erased-key" } else { "" }), case(), format!("{emoji:?} among the candidates of emoticon {e:?}"), format!("{list:?}"));
             }
         }
     }
@@ -313,7 +328,7 @@ impl Prop for C18 {
         "C18"
     }
     fn rule(&self) -> String {
-        "complete table walks: all typeable emoticons of the emojicon table in phonetic mode (2 option sets; words ended alternately by finish and by committing the first emoji) and in fixed mode (Probhat); all English emoji names in phonetic mode, bare and in 6 wrappings (all 7 in thorough; bare + 2 rotating in quick), \
+        "complete table walks: all typeable emoticons of the emojicon table in phonetic mode (2 option sets; words ended alternately by finish and by committing the first emoji) and in fixed mode (Probhat; each also with one extra key - a left-standing sign, a consonant, a mark - pressed and erased at a rotating position, alternately with old vowel-sign order on); all English emoji names in phonetic mode, bare and in 6 wrappings (all 7 in thorough; bare + 2 rotating in quick), \
          each in 2 option sets (plain; English + smart quotes) and compared with the ANSI (emoji-free) list of the same text; all Bengali emoji names in fixed mode through Probhat and the synthetic layout, same wrappings and option sets. \
          distinct_nontrivial = distinct (method, kind, text, options) table entries judged."
             .into()
@@ -329,7 +344,7 @@ impl Prop for C18 {
         tier == Tier::Thorough
     }
     fn minima(&self, _tier: Tier) -> Vec<(&'static str, u64)> {
-        vec![("emoticons_judged_phonetic", 600), ("emoticons_judged_fixed", 100), ("english_names_judged", 5_000), ("bengali_names_judged", 3_000), ("wrapped_names_judged", 4_000), ("names_with_several_emoji", 500)]
+        vec![("emoticons_judged_phonetic", 600), ("emoticons_judged_fixed", 100), ("emoticons_judged_fixed_with_a_key_erased_on_the_way", 50), ("english_names_judged", 5_000), ("bengali_names_judged", 3_000), ("wrapped_names_judged", 4_000), ("names_with_several_emoji", 500)]
     }
     fn classify(&self, classifier: &str, params: &Value, v: &Violation) -> bool {
         match classifier {
@@ -410,9 +425,16 @@ impl Prop for C18 {
                 }
             }
             if lay == Lay::Probhat {
+                let Ok(order) = f(O_FSUGG | O_KARORDER) else { return };
                 for (i, e) in emo.iter().enumerate() {
                     if env.mine(i) {
-                        fixed_emoticon(&o, &plain, e, out, &mut t);
+                        fixed_emoticon(&o, &lo, &plain, e, None, out, &mut t);
+                        // once more with a key pressed and erased on the way (a left-standing sign key, a consonant, a
+                        // mark), with and without old vowel-sign order
+                        let n = e.chars().count();
+                        let k = i / env.nshards;
+                        let junk = (k % n.max(1), ['[', 'k', 'i', '.', 'a'][k % 5]);
+                        fixed_emoticon(&o, &lo, if k % 2 == 0 { &order } else { &plain }, e, Some(junk), out, &mut t);
                     }
                 }
             }
@@ -454,7 +476,12 @@ impl Prop for C18 {
             if kind == "emoticon" {
                 let e = g("text");
                 if o.emoticons.contains_key(e.as_str()) {
-                    fixed_emoticon(&o, &plain, &e, out, &mut t);
+                    let junk = case.get("key_pressed_and_erased").and_then(|j| Some((j.get("before_position")?.as_u64()? as usize, j.get("key")?.as_str()?.chars().next()?)));
+                    let spec = case.get("cfg").and_then(CfgSpec::from_json).unwrap_or(plain.spec);
+                    match Sess::new(spec, &root) {
+                        Ok(s) => fixed_emoticon(&o, &lo, &s, &e, junk, out, &mut t),
+                        Err(_) => fixed_emoticon(&o, &lo, &plain, &e, junk, out, &mut t),
+                    }
                 }
             } else {
                 let name = g("name");
